@@ -62,6 +62,10 @@ inductive RPc | run (sc : List UAct) | send (v : Nat) (sc : List UAct) | cdrain 
 inductive CPc | sel | cancelEnter | cdrain | drainOut (p : PVal) | defer (r : Res) | check (r : Res) | done (r : Res)
   deriving DecidableEq, Repr
 
+/-- who runs `cancel`'s function under the sync.Once (ghost). -/
+inductive Canceller | mapper (i : Nat) | reducer | caller
+  deriving DecidableEq, Repr
+
 structure St where
   gpc : GPc := .run
   gNext : Nat := 0
@@ -81,14 +85,25 @@ structure St where
   wg : Nat := 0
   failed : Nat := 0
   ctxDone : Bool
-  -- ghost logs (never read by the steps)
+  -- ghost logs and snapshots (never read by the steps, except to keep a snapshot once taken)
   mapped : List Nat := []       -- items handed to a mapper
   dropped : List Nat := []      -- items taken from source by a drain
   sent : List Nat := []         -- values accepted by the collector
   reduced : List Nat := []      -- values received by the reducer function
   drained : List Nat := []      -- values received by the reducer goroutine's deferred drain
+  wSnap : Option Bool := none   -- at the reducer's FIRST Write (its guard): was an error recorded / the context over?
+  eSnap : Option Bool := none   -- at the end of the reducer function: was an error recorded?
+  onceBy : Option Canceller := none   -- who entered cancel's sync.Once
+  wroteBy : Option PVal := none       -- whose panic won the CAS of onceChan.write
+  consumed : Bool := false            -- the caller has received the panic value
 
 def init (c : Cfg) : St := { rpc := .run c.rscript, ctxDone := c.ctxPre }
+
+/-- a ghost snapshot is taken once. -/
+def snapOnce (o : Option Bool) (b : Bool) : Option Bool :=
+  match o with
+  | none => some b
+  | some x => some x
 
 def upd (f : Nat → MPc) (i : Nat) (x : MPc) : Nat → MPc := fun j => if j = i then x else f j
 
@@ -117,7 +132,7 @@ def stepGen (c : Cfg) (s : St) : Option St :=
     if c.gPanicAt = some s.gNext then some { s with gpc := .pwrite }
     else if c.n ≤ s.gNext then some { s with gpc := .close }
     else none                       -- waits at the send; the receiver's step moves it
-  | .pwrite => if s.wrote then some { s with gpc := .close } else some { s with wrote := true, gpc := .psend }
+  | .pwrite => if s.wrote then some { s with gpc := .close } else some { s with wrote := true, gpc := .psend, wroteBy := some .gen }
   | .psend => (panicSend c s .gen).map fun s' => { s' with gpc := .close }
   | .close => some { s with srcClosed := true, gpc := .done }
   | .done => none
@@ -150,7 +165,7 @@ def stepMapper (c : Cfg) (s : St) (i : Nat) : Option St :=
     if s.ctxDone || s.fin then some { s with mp := upd s.mp i (.run sc) }
     else some { s with mp := upd s.mp i (.send v sc) }
   | .run (.cancel e :: sc) =>
-    if s.once = 0 then some { s with once := 1, retErr := some (cancelErr e), mp := upd s.mp i (.cdrain sc) }
+    if s.once = 0 then some { s with once := 1, retErr := some (cancelErr e), mp := upd s.mp i (.cdrain sc), onceBy := some (.mapper i) }
     else if s.once = 1 then none
     else some { s with mp := upd s.mp i (.run sc) }
   | .run (.panic :: _) => some { s with mp := upd s.mp i .recovered }
@@ -169,7 +184,7 @@ def stepMapper (c : Cfg) (s : St) (i : Nat) : Option St :=
   | .recovered => some { s with failed := s.failed + 1, mp := upd s.mp i .pwrite }
   | .pwrite =>
     if s.wrote then some { s with mp := upd s.mp i .wgdone }
-    else some { s with wrote := true, mp := upd s.mp i .psend }
+    else some { s with wrote := true, mp := upd s.mp i .psend, wroteBy := some (.mapper i) }
   | .psend => (panicSend c s (.mapper i)).map fun s' => { s' with mp := upd s'.mp i .wgdone }
   | .wgdone => some { s with wg := s.wg - 1, mp := upd s.mp i .unpool }
   | .unpool => some { s with pool := s.pool - 1, mp := upd s.mp i .done }
@@ -178,7 +193,7 @@ def stepMapper (c : Cfg) (s : St) (i : Nat) : Option St :=
 
 def stepRed (c : Cfg) (s : St) : Option St :=
   match s.rpc with
-  | .run [] => some { s with rpc := .drain none }
+  | .run [] => some { s with rpc := .drain none, eSnap := snapOnce s.eSnap s.retErr.isSome }
   | .run (.readOne :: sc) =>
     match s.collQ with
     | v :: q => some { s with collQ := q, reduced := s.reduced ++ [v], rpc := .run sc }
@@ -188,14 +203,15 @@ def stepRed (c : Cfg) (s : St) : Option St :=
     | v :: q => some { s with collQ := q, reduced := s.reduced ++ [v] }
     | [] => if s.collClosed then some { s with rpc := .run sc } else none
   | .run (.write v :: sc) =>
-    if s.ctxDone || s.fin then some { s with rpc := .run sc } else some { s with rpc := .send v sc }
+    if s.ctxDone || s.fin then some { s with rpc := .run sc, wSnap := snapOnce s.wSnap (s.retErr.isSome || s.ctxDone) }
+    else some { s with rpc := .send v sc, wSnap := snapOnce s.wSnap (s.retErr.isSome || s.ctxDone) }
   | .run (.cancel e :: sc) =>
-    if s.once = 0 then some { s with once := 1, retErr := some (cancelErr e), rpc := .cdrain sc }
+    if s.once = 0 then some { s with once := 1, retErr := some (cancelErr e), rpc := .cdrain sc, onceBy := some .reducer }
     else if s.once = 1 then none
     else some { s with rpc := .run sc }
-  | .run (.panic :: _) => some { s with rpc := .drain (some .reducer) }
+  | .run (.panic :: _) => some { s with rpc := .drain (some .reducer), eSnap := snapOnce s.eSnap s.retErr.isSome }
   | .send v sc =>
-    if s.fin then some { s with rpc := .drain (some .sendClosed) }      -- send on closed channel
+    if s.fin then some { s with rpc := .drain (some .sendClosed), eSnap := snapOnce s.eSnap s.retErr.isSome }      -- send on closed channel
     else match s.cpc with
       | .sel => some { s with cpc := .defer (match s.retErr with | some e => .err e | none => .val v), rpc := .run sc }
       | .drainOut _ => some { s with rpc := .run sc }
@@ -215,7 +231,7 @@ def stepRed (c : Cfg) (s : St) : Option St :=
         | some pv => some { s with rpc := .pwrite pv }
         | none => some { s with rpc := .finish }
       else none
-  | .pwrite pv => if s.wrote then some { s with rpc := .finish } else some { s with wrote := true, rpc := .psend pv }
+  | .pwrite pv => if s.wrote then some { s with rpc := .finish } else some { s with wrote := true, rpc := .psend pv, wroteBy := some pv }
   | .psend pv => (panicSend c s pv).map fun s' => { s' with rpc := .finish }
   | .finish => some { s with fin := true, rpc := .done }
   | .done => none
@@ -229,7 +245,7 @@ def stepCaller (c : Cfg) (s : St) : Option St :=
   match s.cpc with
   | .sel => none                       -- the three select cases are separate actors
   | .cancelEnter =>
-    if s.once = 0 then some { s with once := 1, retErr := some .deadline, cpc := .cdrain }
+    if s.once = 0 then some { s with once := 1, retErr := some .deadline, cpc := .cdrain, onceBy := some .caller }
     else if s.once = 1 then none
     else some { s with cpc := .defer (.err .deadline) }
   | .cdrain =>
@@ -241,7 +257,7 @@ def stepCaller (c : Cfg) (s : St) : Option St :=
   | .defer r => if s.fin then (if c.fixed then some { s with cpc := .check r } else some { s with cpc := .done r }) else none
   | .check r =>
     match s.pbuf with
-    | some p => some { s with pbuf := none, cpc := .done (.panic p) }
+    | some p => some { s with pbuf := none, cpc := .done (.panic p), consumed := true }
     | none => some { s with cpc := .done r }
   | .done _ => none
 
@@ -256,7 +272,7 @@ def step (c : Cfg) (s : St) : Actor → Option St
   | .callerPanic =>
     if s.cpc = .sel ∧ c.fixed then
       match s.pbuf with
-      | some p => some { s with pbuf := none, cpc := .drainOut p }
+      | some p => some { s with pbuf := none, cpc := .drainOut p, consumed := true }
       | none => none
     else none
   | .callerOut => if s.cpc = .sel ∧ s.fin then some { s with cpc := .defer (outRes s) } else none
